@@ -16,10 +16,12 @@ import (
 	"path/filepath"
 	"runtime"
 	"sort"
+	"strconv"
 	"strings"
 
 	"github.com/btcsuite/btcd/btcec/v2"
 	"github.com/btcsuite/btcd/txscript"
+	"github.com/btcsuite/btcd/wire"
 	"github.com/vulpemventures/go-elements/address"
 	"github.com/vulpemventures/go-elements/blech32"
 	"github.com/vulpemventures/go-elements/block"
@@ -342,13 +344,19 @@ func genDecCases(r *Rng, n int, w *bufio.Writer) {
 				continue
 			}
 			b, _ := hex.DecodeString(sd.merkleHex[r.Intn(len(sd.merkleHex))])
-			mk, payload = mutateBytes(r, b)
+			if r.Chance(35) {
+				mk, payload = 9, mutateMerkleCounts(r, b)
+			} else {
+				mk, payload = mutateBytes(r, b)
+			}
 		case "psetv0", "psetv0hex":
 			if len(sd.psetV0B64) == 0 {
 				continue
 			}
 			b, _ := base64.StdEncoding.DecodeString(sd.psetV0B64[r.Intn(len(sd.psetV0B64))])
-			if r.Chance(40) {
+			if r.Chance(12) {
+				mk, payload = 10, withWitnessCount(r, 0, b)
+			} else if r.Chance(40) {
 				mk, payload = 8, mutatePsetLength(r, b)
 			} else {
 				mk, payload = mutateBytes(r, b)
@@ -358,7 +366,9 @@ func genDecCases(r *Rng, n int, w *bufio.Writer) {
 				continue
 			}
 			b, _ := base64.StdEncoding.DecodeString(sd.psetV2B64[r.Intn(len(sd.psetV2B64))])
-			if r.Chance(40) {
+			if r.Chance(12) {
+				mk, payload = 10, withWitnessCount(r, 2, b)
+			} else if r.Chance(40) {
 				mk, payload = 8, mutatePsetLength(r, b)
 			} else {
 				mk, payload = mutateBytes(r, b)
@@ -605,7 +615,7 @@ func checkC12Dec(t *Toks) string {
 		return fail(kind+".decode", "panic/"+sanitizeDec(pan))
 	}
 	// the decoders copy their input a few times (hex/base64 text, buffers); anything beyond a small multiple is a length field trusted before the data is there
-	if limit := uint64(len(payload))*400 + 16<<20; alloc > limit {
+	if limit := uint64(len(payload))*400 + allocConst(kind); alloc > limit {
 		return fail(kind+".decode", fmt.Sprintf("allocation/%d-bytes-for-%d-byte-input", alloc, len(payload)))
 	}
 	if res.accepted {
@@ -654,4 +664,103 @@ var _ = payment.FromScript
 func init() {
 	gens["dec"] = genDecCases
 	checks["C12/dec"] = checkC12Dec
+}
+
+// constant part of the allocation bound: what a decoder may use whatever the input (tables, a compiled regular
+// expression, the first buffers). One MiB by default.
+func allocConst(kind string) uint64 {
+	if v := os.Getenv("VERIF_ALLOC_CONST"); v != "" {
+		n, _ := strconv.ParseUint(v, 10, 64)
+		return n
+	}
+	return 1 << 20
+}
+
+// btcd keeps a pool of 4 MiB script buffers (wire.scriptFreeList) that the first decoding of a bitcoin transaction
+// fills; that is a constant of the process, not memory requested for an input. Warm it before anything is measured.
+func init() {
+	raw, _ := hex.DecodeString("01000000010000000000000000000000000000000000000000000000000000000000000000ffffffff0151ffffffff0100000000000000000151" + "00000000")
+	var tx wire.MsgTx
+	_ = tx.BtcDecode(bytes.NewReader(raw), 0, wire.BaseEncoding)
+	_ = tx.BtcDecode(bytes.NewReader(raw), 0, wire.WitnessEncoding)
+}
+
+// structure-aware mutation of a merkle block: the hash count (after the 80-byte header and the 4-byte transaction
+// count) or the flag-byte count is rewritten to a value the decoder's own caps still admit but the input cannot hold,
+// optionally cutting the tail, so that memory reserved from a count before the data is read shows up
+func mutateMerkleCounts(r *Rng, b []byte) []byte {
+	const off = 84
+	if len(b) <= off || b[off] >= 0xfd {
+		return b
+	}
+	n := int(b[off])
+	enc := func(v uint64) []byte {
+		switch {
+		case v < 0xfd:
+			return []byte{byte(v)}
+		case v <= 0xffff:
+			return []byte{0xfd, byte(v), byte(v >> 8)}
+		default:
+			return []byte{0xfe, byte(v), byte(v >> 8), byte(v >> 16), byte(v >> 24)}
+		}
+	}
+	v := uint64(r.Pick(1000, 65535, 65536, 400000, 400001, 400002, 50000, 50001))
+	hashesEnd := off + 1 + 32*n
+	if r.Bool() || hashesEnd >= len(b) {
+		out := append(append([]byte{}, b[:off]...), enc(v)...)
+		out = append(out, b[off+1:]...)
+		if r.Bool() {
+			out = out[:off+len(enc(v))+r.Intn(8)]
+		}
+		return out
+	}
+	out := append(append([]byte{}, b[:hashesEnd]...), enc(v)...)
+	if r.Bool() && hashesEnd+1 < len(b) {
+		out = append(out, b[hashesEnd+1:]...)
+	}
+	return out
+}
+
+// a packet (built through the library from a fixture) whose first input carries a final script witness that declares
+// more stack items than it holds: the decoders keep the field as opaque bytes, the extractor interprets the count
+func withWitnessCount(r *Rng, version int, b []byte) []byte {
+	fw := [][]byte{
+		{0xff, 0xff, 0xff, 0xff, 0xff, 0xff, 0xff, 0xff, 0x7f},
+		{0xfe, 0xff, 0xff, 0xff, 0x7f},
+		{0xfe, 0x00, 0x00, 0x00, 0x40},
+		{0xfd, 0xff, 0xff},
+		{0x02, 0x01, 0x51},
+		{0x05},
+	}[r.Intn(6)]
+	utxo := &transaction.TxOutput{Asset: append([]byte{1}, make([]byte, 32)...), Value: []byte{1, 0, 0, 0, 0, 0, 0, 0, 9},
+		Script: append([]byte{0x00, 0x14}, make([]byte, 20)...), Nonce: []byte{0}}
+	var out string
+	if guarded(func() {
+		if version == 0 {
+			p, err := pset.NewPsetFromBase64(base64.StdEncoding.EncodeToString(b))
+			if err != nil || len(p.Inputs) == 0 {
+				return
+			}
+			in := &p.Inputs[0]
+			in.NonWitnessUtxo, in.WitnessUtxo = nil, utxo
+			in.FinalScriptWitness = fw
+			out, _ = p.ToBase64()
+		} else {
+			p, err := psetv2.NewPsetFromBase64(base64.StdEncoding.EncodeToString(b))
+			if err != nil || len(p.Inputs) == 0 {
+				return
+			}
+			in := &p.Inputs[0]
+			in.NonWitnessUtxo, in.WitnessUtxo = nil, utxo
+			in.FinalScriptWitness = fw
+			out, _ = p.ToBase64()
+		}
+	}) != nil || out == "" {
+		return b
+	}
+	raw, err := base64.StdEncoding.DecodeString(out)
+	if err != nil {
+		return b
+	}
+	return raw
 }
